@@ -178,7 +178,10 @@ func TestLinkedFiles(t *testing.T) {
 		"every file registered in protoregistry.GlobalFiles except those protodesc.NewFile cannot accept in this build (MessageSet-declaring files outside the protolegacy leg; files with unregistered imports): the init-time descriptor, a fresh Builder on the re-marshalled descriptor proto and on the embedded raw bytes (forward, reverse and concurrent walks) vs protodesc.NewFile; non-trivial = at least 3 of {extension, map, oneof, proto3 optional, default, editions feature, nesting >= 2, import}",
 		true,
 		func(yield func(linkedCase, bool) bool) {
-			for _, fd := range descsnap.LinkedFiles() {
+			for i, fd := range descsnap.LinkedFiles() {
+				if int64(i)%pbt.NShards != pbt.Shard {
+					continue // thorough tier: the enumeration is split over the shards
+				}
 				if why := descsnap.OutOfDomain(fd); why != "" {
 					skipped[fd.Path()] = why
 					continue
@@ -199,7 +202,7 @@ func TestLinkedFiles(t *testing.T) {
 	pbt.S.SetExtra("linked_files_checked", n)
 	pbt.S.SetExtra("linked_files_with_embedded_raw_descriptor", withEmbedded)
 	pbt.S.SetExtra("linked_files_out_of_domain", skipped)
-	if min := map[bool]int{false: 40, true: 5}[descsnap.LegacyLegOnly()]; n < min {
+	if min := map[bool]int{false: 40, true: 5}[descsnap.LegacyLegOnly()]; pbt.NShards == 1 && n < min {
 		t.Errorf("only %d linked files: the corpus is not linked in", n)
 	}
 }
